@@ -147,6 +147,31 @@ impl Property for C10 {
     fn max_shrink_iters(&self) -> u32 {
         40
     }
+    fn regressions(&self) -> Vec<Case> {
+        vec![
+            // known finding: one notar vote of a 20 % validator for an unknown block starts the repair storm
+            Case {
+                n: 5,
+                byz: 1,
+                seed: 3,
+                hostile: vec![(5, 255, Hostile::Vote { kind: VKind::Notar, slot: SlotPick::Current, block: 1 })],
+                hostile_phase_s: 4,
+            },
+            // fixed defects: oversized transactions; block for the last window before u64::MAX; parent in the same slot
+            Case {
+                n: 6,
+                byz: 1,
+                seed: 4,
+                hostile: vec![
+                    (3, 255, Hostile::Transactions { count: 1, len: 600 }),
+                    (4, 255, Hostile::Transactions { count: 30, len: 1400 }),
+                    (10, 255, Hostile::Block { slot: SlotPick::LastWindow(1), malform: BlockMalform::UndecodableData, slices: 1 }),
+                    (20, 255, Hostile::Block { slot: SlotPick::OwnWindow(1), malform: BlockMalform::ParentSameSlot, slices: 2 }),
+                ],
+                hostile_phase_s: 6,
+            },
+        ]
+    }
     fn run(&self, case: &Case) -> Outcome {
         match catch(|| with_runtime(true, case.seed, run(case))) {
             Ok(o) => o,
